@@ -457,6 +457,14 @@ func (la *LockAnalysis) solve() {
 					}
 				}
 			} else {
+				// call sites on a private (fresh) receiver say nothing about the locks the others hold -
+				// unless they are all there is
+				others := 0
+				for _, cs := range u.calls {
+					if cs.in != u && !la.privateReceiverAt(cs) {
+						others++
+					}
+				}
 				for _, cs := range u.calls {
 					cu := cs.in
 					if !cu.known || cu.sol == nil {
@@ -468,7 +476,7 @@ func (la *LockAnalysis) solve() {
 					}
 					// a method called on an object that is still private to the caller (a graph it
 					// has just built): whatever the method touches through its receiver needs no lock
-					if la.privateReceiverAt(cs) {
+					if others > 0 && la.privateReceiverAt(cs) {
 						continue
 					}
 					tr := Facts{}
